@@ -1,6 +1,6 @@
 (** C12 — lock protocol of the daemon's operations (what is proved) — see Conc/Locks.v, Conc/Proofs.v *)
 From Coq Require Import List Arith Bool.
-From LS Require Import Conc.Locks Conc.Proofs.
+From LS Require Import Conc.Locks Conc.Proofs Conc.Registry.
 Import ListNotations.
 
 Theorem exec_mutex : forall ps S t u th1 th2,
@@ -48,3 +48,19 @@ Theorem close_stays_released_after_return_refuted :
             rtx (fst S) = true /\ handles (fst S) = true.
 Proof. exact close_stays_released_refuted. Qed.
 Print Assumptions close_stays_released_after_return_refuted.
+
+Theorem register_once_slice : forall sched l,
+  NoDup (map fst l) -> NoDup (map fst (dbs (rrun sched (rinit l)))).
+Proof. exact register_once_slice_thm. Qed.
+Print Assumptions register_once_slice.
+
+Theorem register_outcome_sound : forall s c,
+  match take_pending c (pending s) with
+  | Some ((p, i), _) =>
+      let s' := rstep s (MSecond c) in
+      (has_path p (dbs s) = true -> dbs s' = dbs s /\ In i (closed s') /\ outcomes s' = (c, 2) :: outcomes s) /\
+      (has_path p (dbs s) = false -> In (p, i) (dbs s') /\ outcomes s' = (c, 0) :: outcomes s)
+  | None => rstep s (MSecond c) = s
+  end.
+Proof. exact register_outcome_sound_thm. Qed.
+Print Assumptions register_outcome_sound.
